@@ -735,9 +735,10 @@ def oracle(case, obs):
         if st[c][0] == old:
             if cb_[c] and sub[c] is None:
                 return f"inherit-conn: connected channel {c} of the old node has no counterpart but the edit succeeded"
-            if sub[c] is not None and ca[sub[c]] != cb_[c]:
-                kind = "inherit-conn" if sorted(ca[sub[c]]) != sorted(cb_[c]) else "inherit-order"
-                return f"{kind}: channel {c} of the old node had {cb_[c]}, its counterpart has {ca[sub[c]]}"
+            exp = [sub.get(p, p) for p in cb_[c]]       # (a connection of the old node to itself becomes one of the new)
+            if sub[c] is not None and ca[sub[c]] != exp:
+                kind = "inherit-conn" if sorted(ca[sub[c]]) != sorted(exp) else "inherit-order"
+                return f"{kind}: channel {c} of the old node had {cb_[c]}, its counterpart has {ca[sub[c]]} not {exp}"
         elif st[c][0] != new:
             exp = [sub.get(p, p) for p in cb_[c]]
             if ca[c] != exp:
@@ -989,7 +990,7 @@ def _rand_val(rng, hint):
     return rng.choice([[1, rng.randrange(1, 9)], [2, rng.randrange(1, 9)]])
 
 
-def _add_edges(rng, case, nodes, n_data, n_sig, force_multi=True):
+def _add_edges(rng, case, nodes, n_data, n_sig, force_multi=True, self_loops=False):
     """random valid connections among [nodes] (several per channel on purpose)"""
     st = statics(case)
     have = set()
@@ -999,7 +1000,7 @@ def _add_edges(rng, case, nodes, n_data, n_sig, force_multi=True):
     souts = [c for n in nodes for c in _chans(case, n, 3) if st[c][1] == LIDX["ran"]]
 
     def add(a, b):
-        if (a, b) in have or st[a][0] == st[b][0] or not conn_ok(st, a, b):
+        if (a, b) in have or (st[a][0] == st[b][0] and not self_loops) or not conn_ok(st, a, b):
             return False
         have.add((a, b))
         case["edges"].append([a, b])
@@ -1089,7 +1090,8 @@ def gen_replace(rng, comp=None, cand=None, fault="rand"):
             lo.append(rng.choice(ok))
         case["links_in"], case["links_out"] = li, lo
     everyone = list(range(1, len(case["nodes"]) + 1))
-    _add_edges(rng, case, everyone, rng.choice([2, 3, 4, 5, 6]), rng.choice([0, 1, 2, 3, 4]))
+    _add_edges(rng, case, everyone, rng.choice([2, 3, 4, 5, 6]), rng.choice([0, 1, 2, 3, 4]),
+               self_loops=rng.random() < 0.12)
     if rng.random() < 0.1:
         loose_in = [c for c in range(len(st)) if st[c][2] == 0 and st[c][0] > 0 and st[c][3] is not None]
         if loose_in:
